@@ -147,6 +147,9 @@ func (k *msgServer) MsgAllocate(c context.Context, msg *types.MsgAllocateRequest
 	if err != nil {
 		return nil, err
 	}
+	if fromAddr.Equals(toAddr) {
+		return nil, types.NewErrorInvalidAllocation(subscription.GetID(), toAddr)
+	}
 
 	// Get the existing allocation for the receiver.
 	toAlloc, found := k.GetAllocation(ctx, subscription.GetID(), toAddr)
